@@ -13,5 +13,6 @@ import (
 
 // VerifPatchVulns re-exports patchVulns (the relax loop) for the verification harness (C11).
 func VerifPatchVulns(ctx context.Context, cl resolve.Client, vm matcher.VulnerabilityMatcher, resolved *remediation.ResolvedManifest, vulnIDs []string, opts *options.RemediationOptions) (*remediation.ResolvedManifest, error) {
-	return patchVulns(ctx, cl, vm, resolved, vulnIDs, opts)
+	// by parameter type, not position: verif_export_c16.go (keeps building when the private signature is refactored)
+	return verifCallPatchVulns(ctx, cl, vm, resolved, vulnIDs, opts)
 }
